@@ -20,6 +20,7 @@ import (
 	"cuelang.org/go/internal/mod/modrequirements"
 	"cuelang.org/go/internal/mod/semver"
 	"cuelang.org/go/internal/par"
+	"cuelang.org/go/internal/simhook"
 	"cuelang.org/go/mod/modfile"
 	"cuelang.org/go/mod/module"
 )
@@ -651,6 +652,7 @@ func (ld *loader) shouldIncludePkgFile(pkgPath string, mod module.Version, fsys 
 
 func (ld *loader) resolveDependencies(ctx context.Context, rootPkgPaths []string, rs *modrequirements.Requirements) (*modrequirements.Requirements, *modpkgload.Packages, error) {
 	for {
+		simhook.Probe("modload.resolveDependencies:iteration")
 		logf("---- LOADING from requirements %q", rs.RootModules())
 		pkgs := modpkgload.LoadPackages(ctx, ld.mainModule.Path(), ld.mainModuleLoc, rs, ld.registry, ld.replacements, rootPkgPaths, ld.shouldIncludePkgFile)
 		if ld.checkTidy {
@@ -862,6 +864,7 @@ func (ld *loader) updateRoots(ctx context.Context, rs *modrequirements.Requireme
 	for {
 		var mg *modrequirements.ModuleGraph
 		if rootsUpgraded {
+			simhook.Probe("modload.updateRoots:roots-upgraded")
 			// We've added or upgraded one or more roots, so load the full module
 			// graph so that we can update those roots to be consistent with other
 			// requirements.
@@ -884,6 +887,7 @@ func (ld *loader) updateRoots(ctx context.Context, rs *modrequirements.Requireme
 				// requirements, if they are unpruned!
 				mg, _ = rs.Graph(ctx)
 			} else if !ld.spotCheckRoots(ctx, rs, spotCheckRoot) {
+				simhook.Probe("modload.updateRoots:spot-check-failed")
 				// We spot-checked the explicit requirements of the roots that are
 				// relevant to the packages we've loaded. Unfortunately, they're
 				// inconsistent in some way; we need to load the full module graph
